@@ -482,6 +482,52 @@ def gen_hstore_case(rng):
   return {'kind': 'hstore', 'ops': ops}
 
 
+def gen_nest(rng, depth, top=True):
+  """Nested DNA values as `DNA(...)` accepts them (and a few it rejects)."""
+  def leaf():
+    k = rng.below(10)
+    if k <= 5:
+      return rng.below(6)
+    if k <= 7:
+      return {'q': rng.choice([[1, 2], [-3, 4], [5, 1], [1, 1024], [0, 1], [7, 8]])}
+    if k == 8:
+      return rng.choice(['abc', 'x y', '', '__tuple__', 'é'])
+    return None
+  if depth <= 0:
+    return leaf()
+  k = rng.weighted([(3, 'leaf'), (3, 'list'), (4, 'tuple'), (1, 'bad')])
+  if k == 'leaf':
+    return leaf()
+  if k == 'list':
+    return {'l': [gen_nest(rng, depth - 1, False) for _ in range(rng.below(4))]}
+  if k == 'tuple':
+    head = rng.below(5) if rng.chance(0.9) else {'q': [1, 2]}
+    tail = rng.weighted([(3, 'scalar'), (3, 'list'), (3, 'chain')])
+    if tail == 'scalar':
+      return {'t': [head, leaf()]}
+    if tail == 'list':
+      return {'t': [head, {'l': [gen_nest(rng, depth - 1, False) for _ in range(rng.randint(1, 3))]}]}
+    return {'t': [head] + [rng.below(4) for _ in range(rng.randint(1, 3))] +
+                 ([{'l': [gen_nest(rng, depth - 1, False) for _ in range(2)]}] if rng.chance(0.4) else [])}
+  return rng.choice([{'t': [1]}, {'t': []}, {'t': ['s', 1]}, {'t': [None, 1]}, {'l': [{'t': [1]}]}])
+
+
+def gen_dna_case(rng):
+  tg = TreeGen(rng, floats=False, objects=False)
+  meta = None
+  if rng.chance(0.4):
+    kvs, seen = [], set()
+    for _ in range(rng.randint(1, 3)):
+      k = rng.choice(['a', 'b', 'reward', 'k1', 'x y'])
+      if k not in seen:
+        seen.add(k)
+        kvs.append([k, tg.tree(rng.below(3))])
+    meta = {'d': kvs}
+  cloneable = [meta['d'][0][0]] if meta and rng.chance(0.3) else []
+  return {'kind': 'dna', 'nest': gen_nest(rng, rng.randint(0, 3)), 'meta': meta, 'cloneable': cloneable,
+          'child_meta': rng.chance(0.08)}
+
+
 def stale_mask(ops):
   """For a handle history: True at the positions whose output depends on a stale handle (one
   opened before a later 'w' of the same path) — reads through it, and everything read from a path
@@ -1000,6 +1046,100 @@ class _Impl:
     self.reset_mem()
     return out
 
+  # -- DNA ---------------------------------------------------------------------------------------
+  def py_nest(self, n):
+    if isinstance(n, dict):
+      if 'q' in n:
+        return n['q'][0] / n['q'][1]
+      if 'l' in n:
+        return [self.py_nest(x) for x in n['l']]
+      return tuple(self.py_nest(x) for x in n['t'])
+    return n
+
+  def nest_wire(self, v):
+    if isinstance(v, float):
+      a, b = v.as_integer_ratio()
+      return {'q': [a, b]}
+    if isinstance(v, tuple):
+      return {'t': [self.nest_wire(x) for x in v]}
+    if isinstance(v, list):
+      return {'l': [self.nest_wire(x) for x in v]}
+    return v
+
+  def ratio_tok(self, f):
+    a, b = f.as_integer_ratio()
+    return '%d/%d' % (a, b)
+
+  def dna(self, case):
+    pg = self.pg
+    try:
+      d = pg.DNA(self.py_nest(case['nest']))
+    except ValueError:
+      return {'model': {'parse': 'ValueError'}}
+    if case['meta']:
+      for k, v in case['meta']['d']:
+        d.set_metadata(k, self.build(v), cloneable=k in case['cloneable'])
+    noncloneable = bool(case['meta']) and any(k not in case['cloneable'] for k, _ in case['meta']['d'])
+    child = False
+    if case['child_meta'] and d.children:
+      d.children[0].set_metadata('note', 5)
+      child = True
+      noncloneable = True
+    hexftok, self.ftok = self.ftok, self.ratio_tok
+    try:
+      model = {'json': self.jv_wire(pg.to_json(d))}
+      loaded = self.attempt(lambda: pg.from_json(pg.to_json(d)))
+      if 'ok' in loaded:
+        r = loaded['ok']
+        model['rt'] = {'ok': {'nest': self.nest_wire(r.to_json(compact=True, type_info=False)),
+                              'meta': self.to_wire(r.metadata),
+                              'cloneable': sorted(r._cloneable_metadata_keys)}}   # pylint: disable=protected-access
+      else:
+        model['rt'] = loaded
+    finally:
+      self.ftok = hexftok
+    checks = {}
+    for form, f in (('obj', lambda: pg.from_json(pg.to_json(d))),
+                    ('str', lambda: pg.from_json_str(pg.to_json_str(d))),
+                    ('str-indent', lambda: pg.from_json_str(pg.to_json_str(d, json_indent=2))),
+                    ('pickle', lambda: self.pickle.loads(self.pickle.dumps(d))),
+                    ('deepcopy', lambda: self.copy.deepcopy(d))):
+      res = self.attempt(f)
+      if 'err' in res:
+        checks[form] = ['raises %s' % res['err']]
+      else:
+        r = res['ok']
+        diffs = []
+        if type(r) is not type(d):
+          diffs.append('type')
+        same = self.attempt(lambda: r == d)
+        if not same.get('ok'):
+          diffs.append('==')
+        if form == 'deepcopy' and noncloneable:
+          # metadata set with cloneable=False is dropped by clone / deepcopy by design
+          pass
+        else:
+          if not pg.eq(r, d):
+            diffs.append('pg.eq')
+          if pg.hash(r) != pg.hash(d):
+            diffs.append('pg.hash')
+          if not pg.eq(r.metadata, d.metadata):
+            diffs.append('root metadata')
+        checks[form] = diffs
+    def normal(n, is_child=False):
+      v, cs = n.value, n.children
+      if is_child and v is None and not cs:
+        return False
+      if v is None and len(cs) == 1:
+        return False
+      if len(cs) == 1 and cs[0].value is None:
+        return False
+      if cs and v is not None and not isinstance(v, (int, float)):
+        return False
+      return all(normal(c, True) for c in cs)
+    return {'model': model, 'checks': checks, 'child_meta': child, 'normal': normal(d),
+            'reserved': reserved_shapes(self.to_wire(d.to_json(compact=True, type_info=False)), False)}
+
   # -- specs, schemas, geno, DNA, functions ----------------------------------------------------
   def build_spec(self, s):
     vs = self.pg.typing
@@ -1217,6 +1357,8 @@ class C05(Prop):
         yield gen_store_case(rng, rich_records=rng.chance(0.1))
     for i in range(300 if quick else 15000):
       yield gen_hstore_case(rng)
+    for i in range(300 if quick else 10000):
+      yield gen_dna_case(rng)
     if not quick:
       yield from self.exhaustive_paths()
     for i in range(n_spec):
@@ -1267,6 +1409,8 @@ class C05(Prop):
       return im.store(case)
     if k == 'spec':
       return im.spec(case)
+    if k == 'dna':
+      return im.dna(case)
     raise AssertionError(k)
 
   def model_request(self, case):
@@ -1285,6 +1429,8 @@ class C05(Prop):
         else:
           ops.append(op)
       return {'op': 'store', 'cfg': 'patched', 'ops': ops}
+    if k == 'dna':
+      return {'op': 'dna', 'nest': case['nest'], 'meta': case['meta'], 'cloneable': case['cloneable']}
     if k == 'hstore':
       ops = []
       for op in case['ops']:
@@ -1337,6 +1483,9 @@ class C05(Prop):
           if x != y:
             return 'op %d %s: impl=%s model=%s' % (i, json.dumps(case['ops'][i])[:120], json.dumps(x)[:200], json.dumps(y)[:200])
       return None
+    if k == 'dna':
+      a, b = impl_out['model'], model_out
+      return None if a == b else 'dna: impl=%s model=%s' % (json.dumps(a)[:400], json.dumps(b)[:400])
     if k == 'spec' and case['what'] == 'typed':
       a, b = impl_out['typed_model'], model_out
       return None if a == b else 'typed container: impl=%s model=%s' % (json.dumps(a)[:300], json.dumps(b)[:300])
@@ -1388,6 +1537,24 @@ class C05(Prop):
       return None
     if k == 'hstore':
       return self.hstore_oracle(case, out['outs'])
+    if k == 'dna':
+      if 'checks' not in out:
+        return None
+      for form in ('obj', 'str', 'str-indent', 'pickle', 'deepcopy'):
+        d = out['checks'][form]
+        if d:
+          if form in ('pickle', 'deepcopy'):
+            sig = 'dna:%s:%s' % (form, d[0])
+          elif out['reserved']:
+            sig = 'roundtrip:' + '+'.join(sorted(set(out['reserved'])))
+          elif not out['normal']:
+            sig = 'dna:not-in-normal-form'
+          elif out['child_meta'] and d[0] in ('pg.eq', 'pg.hash'):
+            sig = 'dna:child-metadata-dropped'
+          else:
+            sig = 'dna:%s:%s' % (form, d[0])
+          return {'signature': sig, 'what': 'DNA %s, %s round trip: %s' % (json.dumps(case['nest'])[:200], form, '; '.join(d))}
+      return None
     if k == 'spec':
       if out['problems']:
         p = out['problems'][0]
@@ -1578,6 +1745,8 @@ class C05(Prop):
       return isinstance(case['value'], dict) and 'f' not in case['value'] and 'build_error' not in out
     if k in ('load', 'load_str'):
       return isinstance(case['json'], dict)
+    if k == 'dna':
+      return isinstance(case['nest'], dict) and 'q' not in case['nest']
     if k in ('store', 'hstore'):
       ops = case['ops']
       wrote = set()
@@ -1619,6 +1788,14 @@ class C05(Prop):
     elif k in ('load', 'load_str'):
       rt = out['model']['rt']
       h.append('%s:%s' % (k, 'ok' if 'ok' in rt else rt['err']))
+    elif k == 'dna':
+      m = out['model']
+      h.append('dna:' + ('rejected-by-constructor' if 'parse' in m else 'rt=' + ('ok' if 'ok' in m['rt'] else m['rt']['err'])))
+      if case['meta']:
+        h.append('dna:metadata')
+      if out.get('child_meta'):
+        h.append('dna:child-metadata')
+      h.append('dna:depth=%d' % tree_depth(case['nest']))
     elif k == 'hstore':
       h.append('hstore:handles=%d' % sum(1 for o in case['ops'] if o['k'] == 'hopen'))
       closed = {o['h'] for o in case['ops'] if o['k'] == 'hclose'}
